@@ -18,7 +18,8 @@ def peekTok (h : Handler) (now : Nat) (k : Key) : String :=
     let buf := match st.cachedPayload with | some b => toString b.length | none => "n"
     let b2 := match st.lastBlock2 with
       | some b => s!"{b.num}/{boolStr b.more}/{b.szx}" | none => "n"
-    s!"Kbuf={buf},resp={boolStr st.cachedResponse.isSome},b2={b2}"
+    let szx := match st.cachedSzx with | some x => toString x | none => "n"
+    s!"Kbuf={buf},resp={boolStr st.cachedResponse.isSome},b2={b2},szx={szx}"
 
 structure BlkSess where
   h : Handler
